@@ -892,18 +892,52 @@ def _run(ctx, qe, cfp, mt_mod, NormalFormGame, Player):
         return back, moved
 
     def gen_poly(N=None, generic=None):
-        N = N or ctx.rng.choice([2, 3, 3, 4, 4])
+        N = N or ctx.rng.choice([2, 2, 3, 3, 4, 4])
         nums = [ctx.rng.randint(2, 4) for _ in range(N)]
-        generic = (ctx.rng.random() < 0.7) if generic is None else generic
+        generic = (ctx.rng.random() < 0.6) if generic is None else generic
         mats = {}
+        if generic:
+            kind = "generic"
+        else:
+            kind = ctx.rng.choice(["int-3..3", "int-3..3", "int0..99", "int-10..10", "min-and-max-in-one-matrix"])
         for i in range(N):
             for j in range(N):
                 if i != j:
                     if generic:
                         mats[(i, j)] = [[ctx.rng.uniform(-1, 1) for _ in range(nums[j])] for _ in range(nums[i])]
+                    elif kind == "int0..99":
+                        mats[(i, j)] = [[float(ctx.rng.randint(0, 99)) for _ in range(nums[j])] for _ in range(nums[i])]
+                    elif kind == "int-10..10":
+                        mats[(i, j)] = [[float(ctx.rng.randint(-10, 10)) for _ in range(nums[j])] for _ in range(nums[i])]
+                    elif kind == "min-and-max-in-one-matrix":
+                        mats[(i, j)] = [[float(ctx.rng.randint(20, 60)) for _ in range(nums[j])] for _ in range(nums[i])]
                     else:
                         mats[(i, j)] = [[float(ctx.rng.randint(-3, 3)) for _ in range(nums[j])] for _ in range(nums[i])]
+        if kind == "min-and-max-in-one-matrix":
+            # one head-to-head matrix (not the first one) holds both the global minimum and the global maximum
+            keys = list(mats)
+            k = ctx.rng.choice(keys[1:])
+            M = mats[k]
+            cells = [(a, b) for a in range(len(M)) for b in range(len(M[0]))]
+            (a1, b1), (a2, b2) = ctx.rng.sample(cells, 2)
+            M[a1][b1] = float(ctx.rng.randint(0, 10))
+            M[a2][b2] = float(ctx.rng.randint(80, 99))
+        ctx.count("polym:payoffs:%s" % kind)
         return N, nums, generic, mats
+
+    def mk_pg(mats):
+        """build the game; its range_of_payoffs() is judged exactly (definition) and tied to the model's hRange"""
+        pg = PolymatrixGame(mats)   # noqa
+        lo, hi = pg.range_of_payoffs()
+        allv = [t for v in mats.values() for r in v for t in r]
+        if Fraction(float(lo)) != Fraction(min(allv)) or Fraction(float(hi)) != Fraction(max(allv)):
+            ctx.spec_fail("polym_range_of_payoffs", "range_of_payoffs() = (%r, %r), the entries range over (%r, %r)"
+                          % (float(lo), float(hi), min(allv), max(allv)),
+                          {"op": "PolymatrixGame.range_of_payoffs", "matrices": {"%d,%d" % k: v for k, v in mats.items()}})
+        cases.append(Case("C15 range pm=%s" % ratm([F(np.array(v).ravel()) for v in mats.values()]),
+                          "%s,%s" % (rat(Fraction(float(lo))), rat(Fraction(float(hi)))),
+                          nontrivial=len(mats) >= 2, tag="range"))
+        return pg
 
     def poly_case(N, nums, generic, mats, pg, matq, scale, st, cap=None):
         cap = cap if cap is not None else ctx.rng.choice([3000, 3000, 3000, 3000, 1, 2, 5, 9])
@@ -1010,7 +1044,7 @@ def _run(ctx, qe, cfp, mt_mod, NormalFormGame, Player):
 
     for _ in range(ctx.n(40, 250)):
         N, nums, generic, mats = gen_poly()
-        pg = PolymatrixGame(mats)
+        pg = mk_pg(mats)
         matq = {k: [[Fraction(t) for t in r] for r in v] for k, v in mats.items()}
         scale = 1 + max(abs(t) for v in matq.values() for r in v for t in r) * N
         starts = list(itertools.product(*[range(n) for n in nums]))
@@ -1037,7 +1071,7 @@ def _run(ctx, qe, cfp, mt_mod, NormalFormGame, Player):
             N = len(nums)
             mats = {tuple(int(t) for t in k.split(",")): v for k, v in ent["matrices"].items()}
             generic = ent["kind"] == "generic"
-            pg = PolymatrixGame(mats)
+            pg = mk_pg(mats)
             matq = {k: [[Fraction(t) for t in r] for r in v] for k, v in mats.items()}
             scale = 1 + max(abs(t) for v in matq.values() for r in v for t in r) * N
             ctx.count("howson:corpus-cases")
@@ -1047,7 +1081,7 @@ def _run(ctx, qe, cfp, mt_mod, NormalFormGame, Player):
     # run back-tracks (leaving variable = finishing_v) becomes a case (full run, max_iter=-1 / 3000)
     for _ in range(ctx.n(25, 150)):
         N, nums, generic, mats = gen_poly(N=ctx.rng.choice([3, 4, 4]))
-        pg = PolymatrixGame(mats)
+        pg = mk_pg(mats)
         matq = {k: [[Fraction(t) for t in r] for r in v] for k, v in mats.items()}
         scale = 1 + max(abs(t) for v in matq.values() for r in v for t in r) * N
         kept = 0
@@ -1210,7 +1244,7 @@ def _run(ctx, qe, cfp, mt_mod, NormalFormGame, Player):
     # polym_lcp_solver: several calls on ONE PolymatrixGame, interleaved with its other methods
     for _ in range(ctx.n(8, 50)):
         N, nums, generic, mats = gen_poly()
-        pg = PolymatrixGame(mats)
+        pg = mk_pg(mats)
         pristine = {k: np.array(v, dtype=float) for k, v in mats.items()}
         matq = {k: [[Fraction(t) for t in r] for r in v] for k, v in mats.items()}
         scale = 1 + max(abs(t) for v in matq.values() for r in v for t in r) * N
